@@ -89,7 +89,7 @@ Fires(s, j) ==            \* outcome of rule j's trigger when evaluated now
       [] r.tk = "every2" -> IF Vis(s.sc, "IT") % 2 = 0 THEN 1 ELSE 0
       [] r.tk = "scripted" -> IF s.tpos[j] < Len(TrigScript) THEN TrigScript[s.tpos[j] + 1] ELSE 0
 \* null if the source state is missing; PG is a float state the ins0 leaves keep next to K0 (0.75 * K0, logged in quarters)
-SrcVal(s, src) == IF src = "MISSING" THEN NoVal
+SrcVal(s, src) == IF src \in {"MISSING", "BV"} THEN NoVal       \* (BV: best objective value, never recorded in these runs)
                   ELSE IF src = "PG" THEN (IF Vis(s.sc, "K0") = NoVal THEN NoVal ELSE 3 * Vis(s.sc, "K0"))
                   ELSE Vis(s.sc, src)
 RECURSIVE Entries(_, _, _)
